@@ -38,6 +38,32 @@ def valid(prog, nm):
     return not (bare & {n.strip('"') for n in nm["perm"]}) and not (bare & {n.strip('"').lower() for n in nm["perm"]})
 
 
+def column_part(chk, quick, rnd):
+    """column level: Col.tla resolves references by INDEX; the alias pools contain other tables' bare names (a, b), so the
+    rendered qualifiers collide with bare names wherever the naming layer allows it"""
+    from . import c02
+    r = chk.tlc("Col", c02.cfg(chk, "colmc", TAliases={"x", "b", "a"}, SAliases={"y", "b", "a"}, MaxItems=1),
+                "O1 column level: resolution by name = by index under adversarial alias pools", workers=16, timeout=6000)
+    if r.violated:
+        raise core.MachineryError("Col.tla intended mechanism violates %s" % r.violated)
+    g = chk.tlc("Col", c02.cfg(chk, "colsim", Emit=True, MaxRels=3, MaxItems=2, MaxRefs=2, TAliases={"x", "b", "a"}, SAliases={"y", "b", "a"},
+                               WithUnion=True, invariants=["EmitCase"]),
+                "generate: simulated column-level programs with adversarial aliases", workers=1, coverage=False,
+                simulate="num=%d" % (4000 if quick else 80000), depth=12, seed=chk.seed, timeout=6000)
+    seen, cases = set(), []
+    for c in g.cases("CASE"):
+        k = str(c["prog"])
+        if k not in seen:
+            seen.add(k)
+            cases.append(c)
+    jobs = [{"prog": c["prog"], "flow": c["flow"], "metadata": False, "opts": {"as_kw": rnd.random() < 0.5}} for c in cases]
+    obs = c02.run_jobs(jobs)
+    verdicts, keep = c02.decide(chk, jobs, obs, "colnaming")
+    for (j, o), v in zip(keep, verdicts):
+        chk.count(["col", j["prog"]], nontrivial=any(r["al"] in ("a", "b") for r in j["prog"]["rels"]))
+    chk.cov["column_level_verdicts"] = {k: verdicts.count(k) for k in sorted(set(verdicts))}
+
+
 def run(chk):
     quick = chk.tier == "quick"
     rnd = random.Random(chk.seed)
@@ -77,8 +103,9 @@ def run(chk):
     chk.cov["verdicts"] = {k: verdicts.count(k) for k in sorted(set(verdicts))}
     k = min(len(sel_o) - 1, 23)
     chk.sample({"sql": sel_o[k]["sql"], "naming": sel_j[k]["naming"], "verdict": verdicts[k]})
+    column_part(chk, quick, rnd)
     chk.cov["rule"] = ("cases = (program, naming): %d programs printed by TLC from Stmt.tla x namings of statement-local names: alias pools "
                        "(plain; adversarial = equal to other tables' bare names, the schema, a CTE, the target, the column; mixed case; quoted), "
                        "fresh CTE names, table aliases on/off, AS on/off. non-trivial = a non-plain pool or renamed CTEs." % len(cases))
     chk.assumptions += ["namings keep exposed names pairwise distinct per statement and CTE names fresh (no capture)",
-                        "the column-level part of C08 (alias shadows bare name) is exercised through Col.tla's namings in the same check once built"]
+                        "column level: Col.tla programs under alias pools that contain other tables' bare names, decided by Trace_Col"]
